@@ -34,7 +34,8 @@ class C11(PropBase):
             opens = [i for i, (k, e) in enumerate(keys) if v.alternatives(e) is None]
             if opens and rng.random() < 0.5:
                 i = rng.choice(opens)
-                ss = s.split('/'); ss[i] = ss[i] + rng.choice(['_y', '_WORK', '-b', '.x'])
+                ss = s.split('/')
+                ss[i] = (ss[i] + rng.choice(['_y', '_WORK', '-b', '.x'])) if rng.random() < 0.6 else (rng.choice(['zz_', 'y_', 'b_']) + ss[i])
                 out.append('/'.join(ss))
         return out
     def cases(self, rng, ctx, tier):
@@ -43,7 +44,8 @@ class C11(PropBase):
         self.universes = [self.leafs(rng, v, rng.randint(4, 12)) for _ in range(self.nu)]
         # one deliberate pair per universe: an open value deep in the hierarchy and a sibling extending it across a separator
         self.targets = {}
-        deep = [t for t in v.order if any(v.alternatives(e) is None and i > 4 for i, (k, e) in enumerate(v.types[t]))]
+        with_path = set(k for pc in ctx['rawd']['path_configs'] for k, _ in dict((k, vv) for k, vv in pc[1])['templates'])
+        deep = [t for t in v.order if t in with_path and any(v.alternatives(e) is None and i > 4 for i, (k, e) in enumerate(v.types[t]))]
         for ui, leafs in enumerate(self.universes):
             if not deep:
                 break
